@@ -28,7 +28,9 @@ RULE = ("cases drawn from one PRNG (VERIF_SEED). view: a random tree (depth <= 3
         "stream: the same views with Suspend-wrapped children, streamed in order / out of order under oneshot-controlled "
         "schedules; document: <Title>, "
         "<Meta name content>, <Link href>, <Html attr:lang>, <Body attr:class> of leptos_meta plus a body view, "
-        "rendered under a real ServerMetaContext and passed through the real inject_meta_context over a fixed shell; "
+        "rendered under a real ServerMetaContext and passed through the real inject_meta_context over a shell that varies "
+        "(with / without the <!--HEAD--> marker, with a literal <title> of its own before / after it, the first chunk ending "
+        "anywhere inside the body); "
         "static: thirteen fixed view! invocations whose hostile strings are literals (top-level builder path and nested, "
         "macro-inlined inert path); "
         "template: fourteen view! templates (text child, attribute, class, style, href, input value, Option child, "
@@ -224,8 +226,11 @@ def gen_document(rng):
     link = [b(text(rng))] if rng.random() < 0.4 else []
     lang = [b(text(rng, 3))] if rng.random() < 0.4 else []
     cls = [b(text(rng, 4))] if rng.random() < 0.4 else []
-    body = gen_view(rng, 1, tags=[0, 1, 2, 3, 6])
-    return [3, title, metas, link, lang, cls, body]
+    body = gen_view(rng, 1, tags=[0, 1, 2, 3, 6, 7])
+    # the shell: without <!--HEAD--> marker?, a literal <title> of its own (before / after the
+    # marker's place)?, the first chunk ending inside the body (per mille; 0: one chunk)
+    shell = [int(rng.random() < 0.3), rng.choice([0, 0, 1, 2]), rng.choice([0, 0, 1, 500, 999, rng.randint(1, 999)])]
+    return [3, title, metas, link, lang, cls, body, shell]
 
 
 N_STATIC = 13
@@ -477,10 +482,18 @@ def template_expect(k, s):
 
 def document_expect(case):
     title, metas, link, lang, cls, body = case[1:7]
+    shell = case[7] if len(case) > 7 else [0, 0, 0]
     head = [("el", "meta", [("charset", "utf-8")], [])]
+    static = ("el", "title", [], [("text", "My App")])
+    # the shell's own title stays what it is; the <Title/> text becomes a title element where
+    # <MetaTags/> put its marker, else at the end of <head> before the other tags
+    if shell[1] == 1 or (shell[1] == 2 and shell[0]):
+        head.append(static)
     if title:
         t = norm_attr(s_of(title[0]))
         head.append(("el", "title", [], [("text", t)] if t else []))
+    if shell[1] == 2 and not shell[0]:
+        head.append(static)
     for n, c in metas:
         head.append(("el", "meta", [("name", norm_attr(s_of(n))), ("content", norm_attr(s_of(c)))], []))
     if link:
@@ -612,8 +625,13 @@ def valid_case(item):
             bytes(case[2]).decode("utf-8")
             return len(case) == 3 and 0 <= case[1] < N_TEMPLATES
         if op == 3:
-            if len(case) != 7:
+            if len(case) not in (7, 8):
                 return False
+            if len(case) == 8:
+                sh = case[7]
+                if not (isinstance(sh, list) and len(sh) == 3 and sh[0] in (0, 1) and sh[1] in (0, 1, 2)
+                        and isinstance(sh[2], int) and 0 <= sh[2] <= 1000):
+                    return False
             for o in (case[1], case[3], case[4], case[5]):
                 if len(o) > 1:
                     return False
@@ -775,7 +793,7 @@ def describe(it):
         if case[0] == 3:
             return "document title=%r metas=%r link=%r lang=%r body-class=%r body=%s" % (
                 [s_of(x) for x in case[1]], [(s_of(n), s_of(c)) for n, c in case[2]], [s_of(x) for x in case[3]],
-                [s_of(x) for x in case[4]], [s_of(x) for x in case[5]], show_view(case[6]))
+                [s_of(x) for x in case[4]], [s_of(x) for x in case[5]], show_view(case[6])) + (" shell(no-marker, own-title, split)=%r" % (case[7],) if len(case) > 7 else "")
     except Exception:
         pass
     return None
